@@ -75,6 +75,21 @@ def check(ctx):
             shown = nf.show(back)[:200] if back is not None else "None"
         ctx.ob("C20.a", f"{ip}(*{ex}(sample, t, prev, next, dt), t, dt) == sample", ok,
                "identity holds for all sample times (algebraic proof)" if ok else f"composition normalises to {shown}, not to `sample`", fi.where)
+    # the linear extrapolations with a user `adjust` of the bracket value: the adjusted value is used consistently
+    ADJ = {
+        "extrap_linear_forward": "def spec(sample, sample_at, prev_data, next_data, step_time, adjust):\n    p = adjust(prev_data) if adjust else prev_data\n    return (p, p + (sample - p) / sample_at * step_time)",
+        "extrap_linear_backward": "def spec(sample, sample_at, prev_data, next_data, step_time, adjust):\n    n = adjust(next_data) if adjust else next_data\n    return (n - (n - sample) / (step_time - sample_at) * step_time, n)",
+    }
+    for name, spec in ADJ.items():
+        fe = P.fn(name, module="functional.extrapolation")
+        specs.compare(ctx, "C20.a", f"{name} (any adjust) = documented form", fe, spec, source="functional/extrapolation.py docstring (adjust given)")
+        r, _ = terms.function_term(P, fe, {})
+        ok = False
+        if isinstance(r, tuple) and len(r) == 2:
+            back, _ = terms.function_term(P, P.fn("interp_linear", module="functional.interpolation"), {"prev_data": r[0], "next_data": r[1]})
+            ok = back is not None and nf.equal(back, nf.sym("sample"))
+        ctx.ob("C20.a", f"interp_linear(*{name}(sample, t, prev, next, dt, adjust=f), t, dt) == sample for every adjust f", ok,
+               "" if ok else "with a user adjust function the extrapolated bracket is not the one the slope was computed from: the round trip no longer returns the sample", fe.where)
     lin = P.fn("interp_linear", module="functional.interpolation")
     specs.compare(ctx, "C20.a", "interp_linear is the convex combination (1 - t/dt)*prev + (t/dt)*next", lin,
                   "(1 - sample_at / step_time) * prev_data + (sample_at / step_time) * next_data", source="C20: stays between the bracket values")
